@@ -23,6 +23,7 @@ def run(ctx):
     reasons(ctx)
     cost(ctx)
     batchkey(ctx)
+    batchall(ctx)
     known(ctx)
 
 
@@ -264,6 +265,41 @@ def batchkey(ctx):
         org = flow.origins(b, key + [["f", idx, ""]], at=(c.bb, "T")) if key is not None else set()
         R.require(bool(org) and all(pred(o) for o in org), "key.%d" % idx, c.where(), "key component %d is %s" % (idx, what),
                   fail_msg="dedupe key component %d is %s, expected %s: distinct chunks of one version would collapse in a batch" % (idx, cm.origin_summary(org), what))
+
+
+# ------------------------------------------------------------------------------------------------ batchall
+def batchall(ctx):
+    """The in-batch duplicate test may skip a changeset only if *every* version of its range was already handled in this batch.
+    A test on the range's endpoints (`seen.contains_key(versions.start()) && ..end()`) skips a cleared range whose inner versions
+    were never handled; handle_changes has already put them in its seen cache, so every re-offer is swallowed too."""
+    F = ctx.F
+    R = ctx.rule("C10.batchall", "K4", "process_multiple_changes looks up the per-batch `seen` map once per version of the changeset's range (inside `versions.all(..)`), never by the range's endpoints")
+    fam = F.family(F.get(PMC)) if F.get(PMC) else []
+    looks = [(b, c) for b in fam for c in b.calls if c.name() in ("get", "contains_key", "get_key_value", "overlaps", "gaps", "overlapping")
+             and re.search(r"RangeInclusiveMap<klukai_types::base::CrsqlDbVersion, core::option::Option<klukai_types::agent::PartialVersion>", c.self_ty)]
+    if not R.floor(len(looks), 2, "seen-lookups", "lookups into the per-batch seen map"):
+        return
+    for n, (b, c) in enumerate(looks):
+        ok, why = False, ""
+        if c.name() not in ("get", "contains_key"):
+            why = "range-level lookup %s" % c.name()
+        elif b.kind != "closure" or b.parent is None:
+            why = "the lookup is not inside a per-version closure"
+        else:
+            parent = F.get(b.parent)
+            passed, created = ctx.G.closure_operands(parent)
+            via = [call for call, cid, i in passed if cid == b.id]
+            per_version = [call for call in via if call.name() in ("all", "any", "try_for_each", "for_each", "filter", "find", "position") and "CrsqlDbVersion" in call.self_ty]
+            org = flow.origins(b, op_place(c.args[1]), at=(c.bb, "T"), stop=lambda cc: cc.name() in ("start", "end")) if op_place(c.args[1]) is not None else set()
+            key_is_item = bool(org) and all(o.kind == "arg" and o.local == 2 for o in org)
+            ok = bool(per_version) and key_is_item
+            if not per_version:
+                why = "the closure is not the predicate of an iteration over the version range (%s)" % sorted({x.name() for x in via})
+            elif not key_is_item:
+                why = "the key is %s, not the iterated version" % cm.origin_summary(org)
+        R.require(ok, "per-version#%d" % n, c.where(), "seen.%s(&version) for the version being iterated" % c.name(),
+                  fail_msg="the in-batch duplicate test looks `seen` up by something other than each version of the range (%s): a range whose endpoints were handled is skipped although "
+                           "inner versions were not, and their re-offers are then swallowed by the seen cache" % why)
 
 
 # ------------------------------------------------------------------------------------------------ known
